@@ -97,10 +97,12 @@ def flush (s : St) : St :=
 /-- Completions the poller can get at: in the queue, or on the overflow list. -/
 def St.avail (s : St) : Nat := s.cq + s.ovf
 
-/-- The kernel consumes the published wake messages: each posts one completion
-(`user_data` 1) on the ring (KC7). -/
+/-- The kernel consumes the published wake messages: each posts two completions on the ring
+(KC7, probed on the real kernel by `a10h kc`): the message itself (`user_data` = `off` = 1) on the
+target ring, and the completion of the MSG_RING submission (`user_data` 1, `res` 0) on the source
+ring — a10 sends the message to its own ring and does not ask for CQE_SKIP_SUCCESS. -/
 def consume (s : St) (n : Nat) : St :=
-  post { s with sq := s.sq.drop n } ((s.sq.take n).filter id).length
+  post { s with sq := s.sq.drop n } (2 * ((s.sq.take n).filter id).length)
 
 /-- `unsubmitted_submissions()` as passed to `io_uring_enter` (0 with SQPOLL). -/
 def toSubmit (s : St) : Nat := if s.mode == .sqpoll then 0 else s.sq.length
